@@ -144,6 +144,27 @@ fn p_last_repeated_wakes() {
     assert!(wakes() == 4, "C19 a sibling's wake after its clone was woken still reaches the original");
     assert!(count(&keep) == 2, "C19 all clones released");
 }
+#[kani::proof]
+#[kani::unwind(3)]
+fn p_last_nested_crossing() {
+    // a foreign-side owned waker obtained in one poll is itself handed across the boundary as the
+    // caller's waker of a later poll: the second crossing must take its own clone, released once
+    let (keep, waker) = setup();
+    let first = { let c = CRefWaker::from(&waker); c.with_waker(|w| w.clone()) };
+    assert!(count(&keep) == 3, "C19 first crossing holds one clone");
+    let second = { let c = CRefWaker::from(&first); c.with_waker(|w| w.clone()) };
+    second.wake_by_ref();
+    assert!(wakes() == 1, "C19 a wake through two crossings reaches the original once");
+    drop(first);
+    second.wake_by_ref();
+    assert!(wakes() == 2, "C19 the second-level waker stays valid after the first-level one is gone");
+    assert!(count(&keep) >= 3, "C19 the original is kept alive by the remaining waker");
+    drop(second);
+    assert!(count(&keep) == 2, "C19 every clone released exactly once");
+    drop(waker);
+    drop(keep);
+    assert!(unsafe { ORIG_DROPPED } == 1, "C19 the original released exactly once");
+}
 //@ prefix=p_e2e kind=property clause=end-to-end: a future polled through an opaque object (trait_obj!(fut as Future)) receives a waker whose wake reaches the caller's original, and whose clones are released
 #[kani::proof]
 #[kani::unwind(3)]
